@@ -1045,3 +1045,36 @@ Proof.
   - destruct H as [A B]. intro I0. pose proof (incr_from_lb _ _ _ B I0). lia.
   - destruct H as [A B]. eapply IH; eauto.
 Qed.
+
+(* the draws of one thread *)
+Definition draw_of (e : event) : list N := match ev_obs e with ODrawn i => [i] | _ => [] end.
+Definition draws_tid (t : nat) (tr : list event) : list N :=
+  flat_map (fun e => if Nat.eqb (ev_tid e) t then draw_of e else []) tr.
+
+Lemma draws_tid_sub t tr x : In x (draws_tid t tr) -> In x (draws_of tr).
+Proof.
+  unfold draws_tid, draws_of. intro H. apply in_flat_map in H. destruct H as [e [I1 I2]].
+  apply in_flat_map. exists e. split; [exact I1|]. destruct (Nat.eqb (ev_tid e) t); [exact I2 | destruct I2].
+Qed.
+
+Lemma nodup_app_r {A} (l l' : list A) : NoDup (l ++ l') -> NoDup l'.
+Proof. induction l as [|a l IH]; simpl; [auto|]. intro H. inversion H; subst. apply IH. assumption. Qed.
+
+Lemma draws_tid_disjoint tr : forall i j x, NoDup (draws_of tr) ->
+  In x (draws_tid i tr) -> In x (draws_tid j tr) -> i = j.
+Proof.
+  induction tr as [|e tr IH]; intros i j x ND Hi Hj; [destruct Hi|].
+  unfold draws_of in ND. simpl in ND. fold (draws_of tr) in ND. fold (draw_of e) in ND.
+  unfold draws_tid in Hi, Hj. simpl in Hi, Hj. fold (draws_tid i tr) in Hi. fold (draws_tid j tr) in Hj.
+  apply in_app_or in Hi. apply in_app_or in Hj.
+  assert (NoDup (draws_of tr)) as ND' by (exact (nodup_app_r _ _ ND)).
+  assert (forall y, In y (draw_of e) -> ~ In y (draws_of tr)) as DIS.
+  { intros y Iy. unfold draw_of in *. destruct (ev_obs e); simpl in Iy; try contradiction.
+    destruct Iy as [Ey|[]]. subst y. simpl in ND. inversion ND; assumption. }
+  destruct Hi as [Hi|Hi]; destruct Hj as [Hj|Hj].
+  - destruct (Nat.eqb (ev_tid e) i) eqn:Ei; [|destruct Hi]. destruct (Nat.eqb (ev_tid e) j) eqn:Ej; [|destruct Hj].
+    apply Nat.eqb_eq in Ei. apply Nat.eqb_eq in Ej. congruence.
+  - destruct (Nat.eqb (ev_tid e) i); [|destruct Hi]. exfalso. apply (DIS x Hi). apply (draws_tid_sub j). exact Hj.
+  - destruct (Nat.eqb (ev_tid e) j); [|destruct Hj]. exfalso. apply (DIS x Hj). apply (draws_tid_sub i). exact Hi.
+  - exact (IH i j x ND' Hi Hj).
+Qed.
